@@ -399,7 +399,10 @@ def residual_bound(cfg: dict, model: CoupledSystem, e0: float, vmax: float) -> f
     r0 = (1.0 + model.q) * e0
     smax = max(model.sizes[name] for name in model.out_names)
     if uses_quasi_newton(cfg):
-        return 100.0 * tol * math.sqrt(n) * max(1.0, r0, vmax)
+        # SciPy's criteria are relative and MINPACK / nonlin_solve differentiate numerically: a requested tolerance
+        # below ~1e-11 is beyond what the third-party method can attain (observed 2.9e-10 at tol=1e-13 with hybr,
+        # thorough tier), hence the floor
+        return max(100.0 * tol * math.sqrt(n), 1e-9) * max(1.0, r0, vmax)
     return {
         "no_scaling": tol,  # ||R||_2 <= tol
         "n_coupling_variables": tol * math.sqrt(n),  # ||R||_2 <= tol sqrt(n_resolved)
